@@ -107,7 +107,13 @@ func (i *Int) Add(lhs, rhs *Int) {
 // AddCap sets i = lhs + rhs with capacity capacity.
 // When capacity < 0, it is set to max(lhs.AnnouncedLen(), rhs.AnnouncedLen()) + 1.
 func (i *Int) AddCap(lhs, rhs *Int, capacity int) {
-	(*saferith.Int)(i).Add((*saferith.Int)(lhs), (*saferith.Int)(rhs), capacity)
+	// saferith's Int.Add uses the receiver's limbs as scratch space without
+	// clearing them, so words of the receiver's previous value (in particular
+	// of an operand it aliases) leak into the sum when an operand is shorter.
+	// Add into a fresh value and copy the result.
+	var sum saferith.Int
+	sum.Add((*saferith.Int)(lhs), (*saferith.Int)(rhs), capacity)
+	(*saferith.Int)(i).SetInt(&sum)
 }
 
 // Neg sets i = -x.
